@@ -346,34 +346,48 @@ def r6(ctx, facts):
 
 
 def r7(ctx, facts):
-    """constructors of the sequential / lending iterators: one open(), keys = mask.iter() and nothing else, values = the opened values"""
+    """constructors of the sequential / lending iterators: one open(), keys = mask.iter() and nothing else, values = the opened values.
+    JoinIter::new / JoinLendIter::new (what join() / lend_join() build) are held to it strictly; any OTHER body that builds one of these
+    iterators (a new `join_from`-style entry point) and does not start from the full iterator is reported as undetermined: whether a
+    hand-assembled iterator state still visits exactly the intended indices in order is bit arithmetic this family cannot decide."""
     n = 0
+    ITER_ADTS = ("join::JoinIter", "join::lend_join::JoinLendIter")
     for b in facts.bodies:
-        if b.kind == "Closure" or b.name != "new" or not b.self_ty or base_ty(b.self_ty) not in ("join::JoinIter", "join::lend_join::JoinLendIter"):
+        if b.kind == "Closure":
             continue
-        n += 1
+        aggs = [(bid, i, st["rv"]) for bid, blk in b.blocks.items() for i, st in enumerate(blk["stmts"])
+                if st["rv"]["k"] == "aggregate" and st["rv"].get("adt") in ITER_ADTS and bid in b.live_blocks()]
+        if not aggs:
+            continue
+        strict = b.name == "new" and b.self_ty and base_ty(b.self_ty) in ITER_ADTS
+        if strict:
+            n += 1
         opens = [bb for bb, t in b.real_calls() if norm(t["callee"].get("path")) == "JOIN::open"]
         ok = len({b.site(x) for x in opens}) == 1
         why = "" if ok else "%d open() call sites" % len({b.site(x) for x in opens})
-        if ok:
-            adt = facts.adts.get(base_ty(b.self_ty)) or {}
+        for bid, i, rv in aggs if ok else []:
+            adt = facts.adts.get(rv["adt"]) or {}
             names = [f["name"] for f in (adt.get("variants") or [{"fields": []}])[0]["fields"]]
-            ks = b.ret_origins(names.index("keys")) if "keys" in names else []
-            vs = b.ret_origins(names.index("values")) if "values" in names else []
-            if not ks or not vs:
-                ok, why = "undetermined", "cannot see the keys / values fields of the returned iterator"
-            for ko in ks if ok is True else []:
-                calls = [d for d in b.deps(ko) if d[0] == "call" and not b.term(d[1]).get("ghost")]
-                extra = sorted({(b.term(d[1])["callee"].get("path") or "?") for d in calls
-                                if norm(b.term(d[1])["callee"].get("path")) != "JOIN::open"
-                                and not (b.term(d[1])["callee"].get("name") in ("iter", "into_iter") and "BitSetLike" in (b.term(d[1])["callee"].get("trait") or b.term(d[1])["callee"].get("path") or ""))
-                                and b.term(d[1])["callee"].get("name") not in ("deref", "borrow", "as_ref")})
-                iters = [d for d in calls if b.term(d[1])["callee"].get("name") in ("iter", "into_iter")]
-                if extra or not iters or not all(b.depends_on_call(ko, ob, ("0",)) for ob in opens):
-                    ok, why = False, ("the key iterator is not the full iterator of the opened mask (BitSetLike::iter of open().0 and nothing else): it depends on %s" %
-                                      (extra or ("no iter() call" if not iters else "something other than the opened mask")))
-            for vo in vs if ok is True else []:
-                if not all(b.depends_on_call(vo, ob, ("1",)) for ob in opens) or [d for d in b.deps(vo) if d[0] == "call" and norm(b.term(d[1])["callee"].get("path")) != "JOIN::open" and not b.term(d[1]).get("ghost")]:
-                    ok, why = False, "the values are not exactly the values of the single open() (%r)" % (vo,)
+            if "keys" not in names or "values" not in names or len(rv["ops"]) != len(names):
+                ok, why = "undetermined", "cannot see the keys / values fields of the iterator built here"
+                break
+            ko = b.operand_origin(rv["ops"][names.index("keys")], at=(bid, i))
+            vo = b.operand_origin(rv["ops"][names.index("values")], at=(bid, i))
+            calls = [d for d in b.deps(ko) if d[0] == "call" and not b.term(d[1]).get("ghost")]
+            extra = sorted({(b.term(d[1])["callee"].get("path") or "?") for d in calls
+                            if norm(b.term(d[1])["callee"].get("path")) != "JOIN::open"
+                            and not (b.term(d[1])["callee"].get("name") in ("iter", "into_iter") and "BitSetLike" in (b.term(d[1])["callee"].get("trait") or b.term(d[1])["callee"].get("path") or ""))
+                            and b.term(d[1])["callee"].get("name") not in ("deref", "borrow", "as_ref")})
+            iters = [d for d in calls if b.term(d[1])["callee"].get("name") in ("iter", "into_iter")]
+            if extra or not iters or not all(b.depends_on_call(ko, ob, ("0",)) for ob in opens):
+                ok, why = False, ("the key iterator is not the full iterator of the opened mask (BitSetLike::iter of open().0 and nothing else): it depends on %s" %
+                                  (extra or ("no iter() call" if not iters else "something other than the opened mask")))
+                break
+            if not all(b.depends_on_call(vo, ob, ("1",)) for ob in opens) or [d for d in b.deps(vo) if d[0] == "call" and norm(b.term(d[1])["callee"].get("path")) != "JOIN::open" and not b.term(d[1]).get("ghost")]:
+                ok, why = False, "the values are not exactly the values of the single open() (%r)" % (vo,)
+                break
+        if ok is False and not strict:
+            ok = "undetermined"
+            why = "a further entry point builds a join iterator by hand; not decided: " + why
         ctx.ob("C06-R7", "%s starts from the opened mask's full iterator" % b.path, ok, b.loc(), why)
     ctx.floor("C06-R7", "join iterator constructors", n, 2)
